@@ -302,6 +302,51 @@ def stall_variants(scs, res, per_scenario=40, rnd=None, skip_actors=('poller', '
     return out
 
 
+W_HANDOFF = {20: 6, 21: 6, 1: 5, 3: 4, 4: 4, 5: 5, 6: 3, 10: 3, 11: 4, 14: 5, 30: 3, 33: 4, 2: 2, 31: 1, 12: 2, 13: 2, 22: 3, 23: 3, 24: 3, 25: 3, 29: 3,
+             40: 3, 41: 3, 42: 3, 60: 5, 61: 5, 62: 6, 63: 4, 65: 4, 66: 4, 7: 3}
+
+
+def window_variants(scs, res, per_scenario=60, rnd=None):
+    """Window exploration (two preemptions): one actor is held back at one of its schedule points until ANOTHER actor has arrived at
+    one of its later schedule points, then let go - 'A pauses before this line until B is in the middle of that function'.
+    Variants are sampled from the baseline run's record, hand-off points (locks, triggers, Store, sweep) preferred."""
+    import random as _r
+    rnd = rnd or _r.Random(1)
+    out = []
+    for s in scs:
+        r = res.get(s['id'])
+        if not r or r['info'].get('stuck'):
+            continue
+        gl = [(i, name, g) for i, (name, g) in enumerate(r['info'].get('gates', [])) if g != 'env']
+        if len(gl) < 4:
+            continue
+        seen = set()
+        tries = 0
+        while len(seen) < per_scenario and tries < per_scenario * 6:
+            tries += 1
+            i, an, ag = gl[rnd.randrange(len(gl))]
+            if rnd.random() > W_HANDOFF.get(int(ag.split('#')[0]), 1) / 6.0:
+                continue
+            later = [(j, n2, g2) for j, n2, g2 in gl if j > i and n2 != an]
+            if not later:
+                continue
+            j, un, ug = later[rnd.randrange(len(later))]
+            if rnd.random() > (W_HANDOFF.get(int(ug.split('#')[0]), 1) + 2) / 8.0:
+                continue
+            key = (an, ag, un, ug)
+            if key in seen:
+                continue
+            seen.add(key)
+            v = dict(s)
+            v['id'] = '%s~%s@%s~until~%s@%s' % (s['id'], an, ag, un, ug)
+            v['strategy'], v['plan'] = s.get('strategy', 'random'), []
+            pt, occ = ag.split('#'); upt, uocc = ug.split('#')
+            v['stallname'], v['stallpt'], v['stallocc'] = an, int(pt), int(occ)
+            v['untilname'], v['untilpt'], v['untilocc'] = un, int(upt), int(uocc)
+            out.append(v)
+    return out
+
+
 def known_match(findings, v, res):
     evs = res['events']
     ev = evs[v['line']] if 0 <= v['line'] < len(evs) else {}
